@@ -1,4 +1,169 @@
-import Sio.Model.Server
+/-
+  C11 — no residual server state once a client's transport is gone.
+
+  `erase`: the loss of an open transport `t`, handled in *any* well-formed state — after any
+  prefix history: partially received binary packets, refused connections, unanswered callbacks,
+  malformed packets, handlers that raise in connect / event / disconnect position (the script is
+  universally quantified) — leaves exactly the state with everything of `t` filtered out.
+  `fresh`: when every opened transport has been lost the state is the initial one up to the
+  counters (`nextSid`, script counters, `call()` bookkeeping, queued background handlers).
+  No hypothesis about handlers or pending binary packets is needed (the two defects of the
+  original tree, DESIGN §6 F2/F3, are repaired in /repo and the model has the repaired
+  behaviour: cleanup in `finally`, `_binary_packet` dropped at transport end).
+-/
+import Sio.Lemmas.ServerLost
 namespace Sio.C11
-theorem placeholder_stub : True := trivial
+open Sio Sio.Server Sio.Rooms
+
+variable {dec : Str → Except Err (Packet × Nat)} {cfg : Cfg}
+
+/-! ### demo: transport A with a session, a room, an unanswered callback, a stored session and a
+    half-received binary event; handlers that raise; transport B as bystander -/
+
+def reg0 : Registry := ⟨fun _ _ => true, fun _ => true, fun _ => false, fun _ _ => false⟩
+def cfg0 : Cfg := ⟨false, none, false, reg0, ⟨fun _ => .accept, fun _ => .raise, fun _ => .raise⟩⟩
+def dec0 : Str → Except Err (Packet × Nat)
+  | ['c'] => .ok (⟨CONNECT, none, none, none⟩, 0)
+  | ['h'] => .ok (⟨BINARY_EVENT, none, none, some (.arr [.str ['e'], placeholder 0, placeholder 1])⟩, 2)
+  | _ => .error .valueError
+def tA : Eio := ['A']
+def tB : Eio := ['B']
+def nsRoot : Ns := ['/']
+def hist0 : List Input :=
+  [.eioConnect tA, .eioConnect tB, .frame tA (.str ['c']), .frame tB (.str ['c']),
+   .enterRoom (sidName 0) nsRoot ['r'], .emit ['e'] .none nsRoot (.one (sidName 0)) [] (some 7),
+   .saveSession (sidName 0) nsRoot (.int 1), .frame tA (.str ['h']), .frame tA (.bin [1])]
+def demo0 : Srv := (run dec0 cfg0 {} hist0).1
+theorem demo0_wf : Server.WF demo0 := Server.WF.init.run dec0 cfg0 hist0
+
+/-! ### `erase` -/
+
+/-- The loss of an open transport `t` in a well-formed state: afterwards rooms, callbacks, ack
+    counters, environ, the reassembly buffer, sessions and the socket table are exactly the old
+    ones with every entry of `t` — and of every session that lived on `t` — removed, and no
+    disconnect is pending.  (`Erased t s s'` lists the eight equalities.) -/
+theorem erase {s : Srv} (h : Server.WF s) {t : Eio} (ht : t ∈ s.socks) (reason : Str) :
+    Erased t s (step dec cfg s (.eioLost t reason)).1 := by
+  rw [step]; exact erased_handleLost h cfg ht reason
+
+example : tA ∈ demo0.socks ∧ demo0.binbuf.length = 1 ∧ demo0.cbs.length = 1 ∧
+    demo0.sess.length = 1 ∧ demo0.rooms.length = 5 := by decide
+
+/-- Spelled out: nothing mentions `t`, or a session id that was on `t`. -/
+theorem erase_nothing_left {s : Srv} (h : Server.WF s) {t : Eio} (ht : t ∈ s.socks) (reason : Str) :
+    let s' := (step dec cfg s (.eioLost t reason)).1
+    (∀ e ∈ s'.rooms, e.eio ≠ t ∧ onT s.rooms t e.sid = false) ∧
+    s'.pending = [] ∧
+    (∀ c ∈ s'.cbs, onT s.rooms t c.1 = false) ∧
+    (∀ c ∈ s'.ctr, onT s.rooms t c.1 = false) ∧
+    t ∉ s'.environ ∧ t ∉ s'.socks ∧
+    (∀ e ∈ s'.binbuf, e.1 ≠ t) ∧ (∀ e ∈ s'.sess, e.1 ≠ t) := by
+  intro s'
+  have he : Erased t s s' := erase h ht reason
+  refine ⟨?_, he.pending, ?_, ?_, ?_, ?_, ?_, ?_⟩
+  · intro e hm
+    rw [he.rooms, List.mem_filter] at hm
+    have hne : e.eio ≠ t := by simpa using hm.2
+    refine ⟨hne, ?_⟩
+    rw [Bool.eq_false_iff]
+    intro hon
+    obtain ⟨e', he', h1, h2⟩ := onT_iff.mp hon
+    have hns := h.sidNs e' he' e hm.1 h1
+    exact hne ((h.rooms.sidEio e' he' e hm.1 hns h1).symm.trans h2)
+  · intro c hm
+    rw [he.cbs, List.mem_filter] at hm
+    simpa using hm.2
+  · intro c hm
+    rw [he.ctr, List.mem_filter] at hm
+    simpa using hm.2
+  · rw [he.environ]; simp
+  · rw [he.socks]; simp
+  · intro e hm
+    rw [he.binbuf, List.mem_filter] at hm
+    simpa using hm.2
+  · intro e hm
+    rw [he.sess, List.mem_filter] at hm
+    simpa using hm.2
+
+/-- … and everything of the other transports is kept: what `view t` shows is unchanged, except
+    that `t` leaves `environ` and the socket table. -/
+theorem erase_keeps_others {s : Srv} (h : Server.WF s) {t : Eio} (ht : t ∈ s.socks) (reason : Str) :
+    let s' := (step dec cfg s (.eioLost t reason)).1
+    (view t s').rooms = (view t s).rooms ∧ (view t s').cbs = (view t s).cbs ∧
+    (view t s').ctr = (view t s).ctr ∧ (view t s').binbuf = (view t s).binbuf ∧
+    (view t s').sess = (view t s).sess := by
+  intro s'
+  have he : Erased t s s' := erase h ht reason
+  have hno : ∀ e ∈ s'.rooms, e.eio ≠ t := fun e hm => ((erase_nothing_left h ht reason).1 e hm).1
+  refine ⟨?_, ?_, ?_, ?_, ?_⟩
+  · simp only [view, he.rooms, List.filter_filter, Bool.and_self]
+  · simp only [view]
+    rw [List.filter_eq_self.mpr (fun c _ => by simp [not_onT_of_no_entry hno]), he.cbs]
+  · simp only [view]
+    rw [List.filter_eq_self.mpr (fun c _ => by simp [not_onT_of_no_entry hno]), he.ctr]
+  · simp only [view, he.binbuf, List.filter_filter, Bool.and_self]
+  · simp only [view, he.sess, List.filter_filter, Bool.and_self]
+
+/-- The loss of a transport that is not open (never opened, or already lost) is a no-op. -/
+theorem erase_closed {s : Srv} {t : Eio} (ht : t ∉ s.socks) (reason : Str) :
+    step dec cfg s (.eioLost t reason) = (s, []) := by
+  rw [step]; exact handleLost_closed cfg ht reason
+
+/-- For every prefix history `h` (from the initial state) and every open transport. -/
+theorem erase_history (h : List Input) {t : Eio} (ht : t ∈ (run dec cfg {} h).1.socks)
+    (reason : Str) :
+    Erased t (run dec cfg {} h).1 (run dec cfg {} (h ++ [.eioLost t reason])).1 := by
+  rw [run_append, run_cons, run_nil]
+  exact erase (Server.WF.init.run dec cfg h) ht reason
+
+-- in the demo state everything of A goes, B's session stays, whatever the handlers raise
+example : ((step dec0 cfg0 demo0 (.eioLost tA ['x'])).1.rooms.map (·.eio)) = [tB, tB] ∧
+    (step dec0 cfg0 demo0 (.eioLost tA ['x'])).1.cbs = [] ∧
+    (step dec0 cfg0 demo0 (.eioLost tA ['x'])).1.binbuf.length = 0 ∧
+    (step dec0 cfg0 demo0 (.eioLost tA ['x'])).1.sess.length = 0 ∧
+    (step dec0 cfg0 demo0 (.eioLost tA ['x'])).1.socks = [tB] := by decide
+
+/-! ### `fresh` -/
+
+/-- the state without its counters, `call()` bookkeeping and queued background handlers -/
+def uncounted (s : Srv) : Srv :=
+  { s with nextSid := 0, nConn := 0, nEv := 0, nDisc := 0, nCall := 0, callDone := [], bg := [] }
+
+/-- When no socket is open — every opened transport has been lost — and only open transports
+    were ever mentioned (`Open`, an invariant of admissible histories), the state is the initial
+    one up to the counters. -/
+theorem fresh {s : Srv} (h : Server.WF s) (ho : Open s) (hs : s.socks = []) : uncounted s = {} := by
+  have hr : s.rooms = [] := by
+    apply List.eq_nil_iff_forall_not_mem.mpr
+    intro e he; have := ho.rooms e he; rw [hs] at this; cases this
+  have hb : s.binbuf = [] := by
+    apply List.eq_nil_iff_forall_not_mem.mpr
+    intro e he; have := ho.binbuf e he; rw [hs] at this; cases this
+  have hse : s.sess = [] := by
+    apply List.eq_nil_iff_forall_not_mem.mpr
+    intro e he; have := h.sessOpen e he; rw [hs] at this; cases this
+  have hcb : s.cbs = [] := by
+    apply List.eq_nil_iff_forall_not_mem.mpr
+    intro c hc; obtain ⟨_, _, hm⟩ := h.cbsLive c hc; rw [hr] at hm; cases hm
+  have hct : s.ctr = [] := by
+    apply List.eq_nil_iff_forall_not_mem.mpr
+    intro c hc; obtain ⟨_, _, hm⟩ := h.ctrLive c hc; rw [hr] at hm; cases hm
+  have hen : s.environ = [] := h.envSocks.trans hs
+  simp only [uncounted, hr, hb, hse, hcb, hct, hen, hs, h.pendingNil]
+
+/-- Over every history in which engine.io delivers frames of open sockets only (`Adm`): once all
+    opened transports are lost the server equals a freshly started one up to the counters. -/
+theorem fresh_history {h : List Input} (ha : Adm dec cfg {} h)
+    (hs : (run dec cfg {} h).1.socks = []) : uncounted (run dec cfg {} h).1 = {} :=
+  fresh (Server.WF.init.run dec cfg h) (Open.run ha Open.init Server.WF.init) hs
+
+example : Adm dec0 cfg0 {} (hist0 ++ [.eioLost tA ['x'], .eioLost tB ['y']]) := by
+  unfold hist0
+  refine .other (by simp) (by simp) (.other (by simp) (by simp) (.frame (by decide)
+    (.frame (by decide) (.other (by simp) (by simp) (.other (by simp) (by simp)
+    (.other (by simp) (by simp) (.frame (by decide) (.frame (by decide)
+    (.other (by simp) (by simp) (.other (by simp) (by simp) .nil))))))))))
+example : (run dec0 cfg0 {} (hist0 ++ [.eioLost tA ['x'], .eioLost tB ['y']])).1.socks = [] := by
+  decide
+
 end Sio.C11
